@@ -8,7 +8,7 @@ def c15(tier):
     q = tier == 'quick'
     tiers = [
         {'name': 'onestep', 'cfg': 'Gen_Strings1.cfg'},
-        {'name': 'sim10', 'cfg': 'Gen_Strings.cfg', 'simulate': 'num=1000000', 'depth': 15,
+        {'name': 'sim10', 'cfg': 'Gen_Strings.cfg', 'simulate': 'num=1000000', 'depth': 15, 'ninit': 4,
          'limit': 3000 if q else 150000, 'timeout': 2400},
     ]
     return poolcheck.run(
